@@ -1,11 +1,22 @@
 #!/bin/bash
 # One-time build of the framework from files on disk only (offline).
-# Builds the harness binaries behind the checks that MANIFEST.json claims
-# (all of them are in-process checks served by vc-front); `./check` rebuilds
-# incrementally against /repo's current working tree on every call.
+# Builds every harness binary behind a check that MANIFEST.json claims, plus
+# the real veryl / veryl-ls binaries (harness packages vcli / vls compiled
+# from /repo's own main.rs files) for the CLI-driven checks.  `./check`
+# rebuilds incrementally against /repo's current working tree on every call.
 set -e
 export CARGO_NET_OFFLINE=true
 mkdir -p /verif/.target /verif/.work /verif/evidence /verif/replays
 cd /verif/harness
-cargo build --release -p vc-front
+PKGS=$(python3 - <<'PY'
+import json
+m = json.load(open('/verif/MANIFEST.json'))
+bins = sorted({c['engine'] for c in m['checks']})
+print(' '.join('-p ' + b for b in bins))
+PY
+)
+cargo build --release $PKGS
+# vc-aig enables the synthesizer's `aig` feature: built on its own so the
+# feature is not unified into the other binaries
+if echo "$PKGS" | grep -q vc-aig; then cargo build --release -p vc-aig; fi
 echo "setup done"
